@@ -396,4 +396,323 @@ theorem validate_eq (files : Files) (I L R : Dict) (ld rd : JVal)
     · simp only [hstr, Bool.false_eq_true, if_false, schemaUpdate_disp]
       split <;> simp_all <;> exact tail_eq files I L R ld rd
 
+
+theorem checkDisp_range (files : Files) (v img : JVal) (h : twoInts v = true) :
+    checkDisparitiesFromInput files v img = .ok () ↔ rangeOk v = true := by
+  cases v with
+  | list items =>
+    match items with
+    | [a, b] =>
+      cases a <;> cases b <;> simp [twoInts, intOf?] at h <;>
+        simp [checkDisparitiesFromInput, rangeOk, intOf?, JVal.toNum?, Num.lt]
+      all_goals (try (rename_i x y; cases x <;> cases y <;> simp))
+      all_goals (try (rename_i x y; cases x <;> simp <;> omega))
+      all_goals (try omega)
+    | [] => simp [twoInts] at h
+    | [_] => simp [twoInts] at h
+    | _ :: _ :: _ :: _ => simp [twoInts] at h
+  | _ => simp [twoInts] at h
+
+theorem aux_combined (files : Files) (im : FileInfo) (S : Dict) (k : String) :
+    (auxSchemaOk files (Dict.lookup S k) = true ∧ checkAux files im (.obj S) k = .ok ()) ↔
+      auxOk files im (Dict.lookup S k) = true := by
+  simp only [checkAux]
+  cases hl : Dict.lookup S k with
+  | none => simp [auxSchemaOk, auxOk]
+  | some v =>
+    cases v <;> simp [auxSchemaOk, auxOk]
+    rename_i p
+    cases hf : files p with
+    | none => simp
+    | some a =>
+      by_cases h1 : a.width = im.width <;> by_cases h2 : a.height = im.height <;> simp [h1, h2]
+
+theorem checkImages_ok_iff (files : Files) (L R : Dict) :
+    checkImages files (.obj L) (.obj R) = .ok () ↔
+      ∃ iml imr, imgOf files L = some iml ∧ imgOf files R = some imr ∧
+        iml.width = imr.width ∧ iml.height = imr.height ∧
+        checkAux files iml (.obj L) "mask" = .ok () ∧ checkAux files imr (.obj R) "mask" = .ok () ∧
+        checkAux files iml (.obj L) "classif" = .ok () ∧ checkAux files imr (.obj R) "classif" = .ok () ∧
+        checkAux files iml (.obj L) "segm" = .ok () ∧ checkAux files imr (.obj R) "segm" = .ok () := by
+  unfold checkImages imgOf
+  simp only [subscript]
+  cases hl : Dict.lookup L "img" with
+  | none => simp
+  | some lv =>
+    cases hr : Dict.lookup R "img" with
+    | none => cases lv <;> simp
+    | some rv =>
+      cases lv <;> cases rv <;> simp
+      rename_i lp rp
+      cases hfl : files lp with
+      | none => simp
+      | some iml =>
+        cases hfr : files rp with
+        | none => simp
+        | some imr =>
+          simp only [Option.some.injEq, exists_and_left, exists_eq_left']
+          by_cases h1 : iml.width = imr.width <;> by_cases h2 : iml.height = imr.height <;> simp [h1, h2]
+          simp only [checkAuxAll]
+          cases checkAux files iml (.obj L) "mask" <;> simp
+          cases checkAux files imr (.obj R) "mask" <;> simp
+          cases checkAux files iml (.obj L) "classif" <;> simp
+          cases checkAux files imr (.obj R) "classif" <;> simp
+          cases checkAux files iml (.obj L) "segm" <;> simp
+          cases checkAux files imr (.obj R) "segm" <;> simp
+
+
+theorem imgOf_some (files : Files) (S : Dict) (im : FileInfo) :
+    imgOf files S = some im ↔ ∃ p, Dict.lookup S "img" = some (.str p) ∧ files p = some im := by
+  unfold imgOf
+  cases Dict.lookup S "img" with
+  | none => simp
+  | some v => cases v <;> simp
+
+theorem imgSchemaOk_iff (files : Files) (S : Dict) :
+    imgSchemaOk files (Dict.lookup S "img") = true ↔ ∃ im, imgOf files S = some im := by
+  unfold imgOf imgSchemaOk
+  cases Dict.lookup S "img" with
+  | none => simp
+  | some v =>
+    cases v <;> simp
+    rename_i p
+    cases files p <;> simp
+
+theorem nodata_opt (o : Oracle) (x : Option JVal) :
+    optAccepts o nodataS x = (match x with | some v => nodataOk v | none => false) := by
+  cases x <;> simp [optAccepts, nodata_entry]
+
+theorem optAccepts_some (o : Oracle) (s : Schema) (v : JVal) :
+    optAccepts o s (some v) = Schema.accepts o s v := rfl
+
+theorem isNull_iff (v : JVal) : v.isNull = true ↔ v = .null := by cases v <;> simp [JVal.isNull]
+theorem isStr_iff (v : JVal) : v.isStr = true ↔ ∃ p, v = .str p := by cases v <;> simp [JVal.isStr]
+
+theorem twoInts_list {v : JVal} (h : twoInts v = true) : ∃ items, v = .list items := by
+  cases v <;> simp [twoInts] at h
+  exact ⟨_, rfl⟩
+
+theorem rangeOk_twoInts {v : JVal} (h : rangeOk v = true) : twoInts v = true := by
+  cases v with
+  | list items =>
+    match items with
+    | [a, b] =>
+      simp only [rangeOk] at h
+      simp only [twoInts]
+      cases ha : intOf? a <;> cases hb : intOf? b <;> simp [ha, hb] at h ⊢
+    | [] => simp [rangeOk] at h
+    | [_] => simp [rangeOk] at h
+    | _ :: _ :: _ :: _ => simp [rangeOk] at h
+  | _ => simp [rangeOk] at h
+
+theorem gridOk_files {files : Files} {im : FileInfo} {p : String} (h : gridOk files (some im) p = true) :
+    (files p).isSome = true := by
+  unfold gridOk at h
+  cases hf : files p <;> simp [hf] at h ⊢
+
+/-- schema of both sides + custom checks = the documented forms of a completed section -/
+theorem core_iff (files : Files) (L R : Dict) (ld rd : JVal)
+    (hld : Dict.lookup L "disp" = some ld) (hrd : Dict.lookup R "disp" = some rd) :
+    (Schema.accepts (fileOracle files) (.dict (baseEntries ++ [("disp", false, selL ld)])) (.obj L) = true ∧
+     Schema.accepts (fileOracle files) (.dict (baseEntries ++ [("disp", false, selR ld rd)])) (.obj R) = true ∧
+     tailChecks files L R ld rd = .ok ()) ↔ formOk files L R = true := by
+  rw [side_accepts_iff, side_accepts_iff]
+  simp only [hld, hrd, nodata_opt, optAccepts_some]
+  constructor
+  · intro ⟨⟨hli, hln, hlm, hlc, hls, hlds, hlk⟩, ⟨hri, hrn, hrm, hrc, hrs, hrds, hrk⟩, htail⟩
+    obtain ⟨iml, himl⟩ := (imgSchemaOk_iff files L).1 hli
+    obtain ⟨imr, himr⟩ := (imgSchemaOk_iff files R).1 hri
+    obtain ⟨lp, hlp, hfl⟩ := (imgOf_some files L iml).1 himl
+    obtain ⟨rp, hrp, hfr⟩ := (imgOf_some files R imr).1 himr
+    simp only [tailChecks, hlp, hrp] at htail
+    cases hc1 : checkDisparitiesFromInput files ld (.str lp) with
+    | error e => simp [hc1] at htail
+    | ok u1 =>
+      cases hc2 : checkDisparitiesFromInput files rd (.str rp) with
+      | error e => simp [hc1, hc2] at htail
+      | ok u2 =>
+        simp only [hc1, hc2] at htail
+        obtain ⟨iml', imr', h1, h2, hw, hh, a1, a2, a3, a4, a5, a6⟩ := (checkImages_ok_iff files L R).1 htail
+        rw [himl] at h1; cases h1
+        rw [himr] at h2; cases h2
+        unfold formOk
+        simp only [himl, himr, sideBaseOk, hlk, hrk, Bool.and_eq_true, beq_iff_eq, hw, hh, true_and]
+        refine ⟨⟨⟨⟨⟨hln, (aux_combined files iml L "mask").1 ⟨hlm, a1⟩⟩, (aux_combined files iml L "classif").1 ⟨hlc, a3⟩⟩,
+          (aux_combined files iml L "segm").1 ⟨hls, a5⟩⟩,
+          ⟨⟨hrn, (aux_combined files imr R "mask").1 ⟨hrm, a2⟩⟩, (aux_combined files imr R "classif").1 ⟨hrc, a4⟩⟩,
+          (aux_combined files imr R "segm").1 ⟨hrs, a6⟩⟩, ?_⟩
+        -- the disparities
+        rw [hld, hrd]
+        by_cases hlist : ld.isList = true
+        · simp only [selL, selR, hlist, if_true, range_entry, none_entry] at hlds hrds
+          obtain ⟨items, rfl⟩ := twoInts_list hlds
+          rw [(isNull_iff rd).1 hrds]
+          simp only [dispsOk]
+          exact (checkDisp_range files _ _ hlds).1 hc1
+        · simp only [selL, selR, hlist, Bool.false_eq_true, if_false, grid_entry, Bool.and_eq_true] at hlds hrds
+          obtain ⟨p, rfl⟩ := (isStr_iff ld).1 hlds.2
+          have g1 := ((C17.checkDisparities_grid files p lp).1 hc1).2
+          rw [hfl] at g1
+          by_cases hstr : rd.isStr = true
+          · simp only [hstr, if_true, grid_entry, Bool.and_eq_true] at hrds
+            obtain ⟨q, rfl⟩ := (isStr_iff rd).1 hstr
+            have g2 := ((C17.checkDisparities_grid files q rp).1 hc2).2
+            rw [hfr] at g2
+            simp [dispsOk, g1, g2]
+          · simp only [hstr, Bool.false_eq_true, if_false, none_entry] at hrds
+            rw [(isNull_iff rd).1 hrds]
+            simp [dispsOk, g1]
+  · intro h
+    unfold formOk at h
+    cases himl : imgOf files L with
+    | none => simp [himl] at h
+    | some iml =>
+      cases himr : imgOf files R with
+      | none => simp [himl, himr] at h
+      | some imr =>
+        simp only [himl, himr, sideBaseOk, Bool.and_eq_true, beq_iff_eq] at h
+        obtain ⟨⟨⟨⟨hw, hh⟩, ⟨⟨⟨hlk, hln⟩, hlm⟩, hlc⟩, hls⟩, ⟨⟨⟨hrk, hrn⟩, hrm⟩, hrc⟩, hrs⟩, hd⟩ := h
+        obtain ⟨lp, hlp, hfl⟩ := (imgOf_some files L iml).1 himl
+        obtain ⟨rp, hrp, hfr⟩ := (imgOf_some files R imr).1 himr
+        obtain ⟨b1, a1⟩ := (aux_combined files iml L "mask").2 hlm
+        obtain ⟨b3, a3⟩ := (aux_combined files iml L "classif").2 hlc
+        obtain ⟨b5, a5⟩ := (aux_combined files iml L "segm").2 hls
+        obtain ⟨b2, a2⟩ := (aux_combined files imr R "mask").2 hrm
+        obtain ⟨b4, a4⟩ := (aux_combined files imr R "classif").2 hrc
+        obtain ⟨b6, a6⟩ := (aux_combined files imr R "segm").2 hrs
+        have hci : checkImages files (.obj L) (.obj R) = .ok () :=
+          (checkImages_ok_iff files L R).2 ⟨iml, imr, himl, himr, hw, hh, a1, a2, a3, a4, a5, a6⟩
+        have hLi := (imgSchemaOk_iff files L).2 ⟨iml, himl⟩
+        have hRi := (imgSchemaOk_iff files R).2 ⟨imr, himr⟩
+        rw [hld, hrd] at hd
+        -- the three documented pairs
+        have key : Schema.accepts (fileOracle files) (selL ld) ld = true ∧
+            Schema.accepts (fileOracle files) (selR ld rd) rd = true ∧
+            checkDisparitiesFromInput files ld (.str lp) = .ok () ∧
+            checkDisparitiesFromInput files rd (.str rp) = .ok () := by
+          cases ld with
+          | list items =>
+            cases rd <;> simp [dispsOk] at hd
+            have ht := rangeOk_twoInts hd
+            refine ⟨by simp [selL, JVal.isList, range_entry, ht], by simp [selR, JVal.isList, none_entry, JVal.isNull],
+              (checkDisp_range files _ _ ht).2 hd, by simp [checkDisparitiesFromInput]⟩
+          | str p =>
+            cases rd <;> simp [dispsOk] at hd
+            · have hf := gridOk_files hd
+              refine ⟨by simp [selL, JVal.isList, grid_entry, auxSchemaOk, hf, JVal.isStr],
+                by simp [selR, JVal.isList, JVal.isStr, none_entry, JVal.isNull],
+                (C17.checkDisparities_grid files p lp).2 ⟨by simp [hfl], by rw [hfl]; exact hd⟩,
+                by simp [checkDisparitiesFromInput]⟩
+            · rename_i q
+              have hf1 := gridOk_files hd.1
+              have hf2 := gridOk_files hd.2
+              refine ⟨by simp [selL, JVal.isList, grid_entry, auxSchemaOk, hf1, JVal.isStr],
+                by simp [selR, JVal.isList, JVal.isStr, grid_entry, auxSchemaOk, hf2],
+                (C17.checkDisparities_grid files p lp).2 ⟨by simp [hfl], by rw [hfl]; exact hd.1⟩,
+                (C17.checkDisparities_grid files q rp).2 ⟨by simp [hfr], by rw [hfr]; exact hd.2⟩⟩
+          | _ => simp [dispsOk] at hd
+        obtain ⟨k1, k2, k3, k4⟩ := key
+        refine ⟨⟨hLi, hln, b1, b3, b5, k1, hlk⟩, ⟨hRi, hrn, b2, b4, b6, k2, hrk⟩, ?_⟩
+        simp [tailChecks, hlp, hrp, k3, k4, hci]
+
+
+theorem side_accepts_obj {files : Files} {ds : Schema} {v : JVal}
+    (h : Schema.accepts (fileOracle files) (.dict (baseEntries ++ [("disp", false, ds)])) v = true) :
+    ∃ S d, v = .obj S ∧ Dict.lookup S "disp" = some d := by
+  cases hv : v.isObj
+  · rw [Merge.dict_accepts_leaf _ _ v hv] at h; cases h
+  · cases v <;> simp [JVal.isObj] at hv
+    rename_i S
+    have := ((side_accepts_iff files ds S).1 h).2.2.2.2.2.1
+    cases hd : Dict.lookup S "disp" with
+    | none => simp [hd, optAccepts] at this
+    | some d => exact ⟨S, d, rfl, hd⟩
+
+/-- a validated section has two dictionary sides, each with a `disp` -/
+theorem validate_shape {files : Files} {I out : Dict}
+    (h : validateInput files inputSchemas [("input", .obj I)] = .ok out) :
+    ∃ L R ld rd, Dict.lookup I "left" = some (.obj L) ∧ Dict.lookup I "right" = some (.obj R) ∧
+      Dict.lookup L "disp" = some ld ∧ Dict.lookup R "disp" = some rd := by
+  obtain ⟨g1, g2, g3, g4, g5, g6, g7, g8, _⟩ := generated_input_schemas
+  unfold validateInput at h
+  simp only [subscript, Dict.lookup, if_true, g1, g2, g3, g4, g5, g6, g7, g8] at h
+  cases hl : Dict.lookup I "left" with
+  | none => simp [hl] at h
+  | some lv =>
+    cases lv with
+    | obj L =>
+      simp only [hl] at h
+      cases hld : Dict.lookup L "disp" with
+      | none => simp [hld] at h
+      | some ld =>
+        simp only [hld] at h
+        by_cases hlist : ld.isList = true
+        · simp only [hlist, if_true, schemaUpdate_disp] at h
+          split at h
+          · cases h
+          · rename_i hacc
+            simp only [Bool.not_eq_true', Bool.not_eq_false] at hacc
+            obtain ⟨_, ⟨rv, hr, hra⟩, _⟩ := (top_accepts_iff _ _ _ I).1 hacc
+            obtain ⟨R, rd, rfl, hrd⟩ := side_accepts_obj hra
+            exact ⟨L, R, ld, rd, rfl, hr, hld, hrd⟩
+        · simp only [hlist, Bool.false_eq_true, if_false] at h
+          cases hr : Dict.lookup I "right" with
+          | none => simp [hr] at h
+          | some rv =>
+            cases rv with
+            | obj R =>
+              simp only [hr] at h
+              cases hrd : Dict.lookup R "disp" with
+              | none => simp [hrd] at h
+              | some rd => exact ⟨L, R, ld, rd, rfl, rfl, hld, hrd⟩
+            | _ => simp [hr] at h
+    | _ => simp [hl] at h
+
+/-- **the validation of a merged section**: it returns normally — and then returns the section
+    unchanged — exactly when the section consists of a `left` and a `right` dictionary and nothing
+    else, and these two have a documented form (`formOk`) -/
+theorem validateInput_ok_iff (files : Files) (I out : Dict) :
+    validateInput files inputSchemas [("input", .obj I)] = .ok out ↔
+      (out = [("input", .obj I)] ∧ ∃ L R, Dict.lookup I "left" = some (.obj L) ∧
+        Dict.lookup I "right" = some (.obj R) ∧ (∀ kv ∈ I, kv.1 = "left" ∨ kv.1 = "right") ∧
+        formOk files L R = true) := by
+  constructor
+  · intro h
+    obtain ⟨L, R, ld, rd, hL, hR, hld, hrd⟩ := validate_shape h
+    rw [validate_eq files I L R ld rd hL hR hld hrd] at h
+    split at h
+    · rename_i hacc
+      cases ht : tailChecks files L R ld rd with
+      | error e => simp [ht] at h
+      | ok u =>
+        simp only [ht, Except.ok.injEq] at h
+        obtain ⟨⟨lv, hl', hla⟩, ⟨rv, hr', hra⟩, hkeys⟩ := (top_accepts_iff _ _ _ I).1 hacc
+        rw [hL] at hl'; cases hl'
+        rw [hR] at hr'; cases hr'
+        exact ⟨h.symm, L, R, hL, hR, hkeys, (core_iff files L R ld rd hld hrd).1 ⟨hla, hra, ht⟩⟩
+    · cases h
+  · intro ⟨hout, L, R, hL, hR, hkeys, hform⟩
+    -- a documented form has both disparities
+    have hdisp : ∃ ld rd, Dict.lookup L "disp" = some ld ∧ Dict.lookup R "disp" = some rd := by
+      unfold formOk at hform
+      cases himl : imgOf files L with
+      | none => simp [himl] at hform
+      | some iml =>
+        cases himr : imgOf files R with
+        | none => simp [himl, himr] at hform
+        | some imr =>
+          simp only [himl, himr, Bool.and_eq_true] at hform
+          have hd := hform.2
+          cases hld : Dict.lookup L "disp" with
+          | none => simp [hld, dispsOk] at hd
+          | some ld =>
+            cases hrd : Dict.lookup R "disp" with
+            | none => cases ld <;> simp [hld, hrd, dispsOk] at hd
+            | some rd => exact ⟨ld, rd, rfl, rfl⟩
+    obtain ⟨ld, rd, hld, hrd⟩ := hdisp
+    obtain ⟨hla, hra, ht⟩ := (core_iff files L R ld rd hld hrd).2 hform
+    rw [validate_eq files I L R ld rd hL hR hld hrd]
+    have hacc := (top_accepts_iff (fileOracle files) _ _ I).2 ⟨⟨_, hL, hla⟩, ⟨_, hR, hra⟩, hkeys⟩
+    simp only [topSchema, hacc, if_true, ht, hout]
+
 end Pandora.C17W
